@@ -22,6 +22,13 @@ package unionstore
 //	inflight  the flush function is never entered while another invocation is running
 //	error     a failed flush is reported by a later Flush / FlushWait, at the latest by the closing
 //	          Flush(true)+FlushWait (that is what Commit does); it is never swallowed
+//	progress  a Flush / FlushWait / Len / Dirty that has not returned although no invocation of the flush function
+//	          is running or held (the flush function is the harness's own: "in flight" is exactly known) and
+//	          still has not after a ten-fold bound is blocked for good: nothing is left that could wake it up.
+//	          That is judged in particular after an error has been reported ("a flush error makes the
+//	          transaction fail": the application goes on to FlushWait - that is what Rollback does - or to
+//	          another Flush): every program carries a tail of such calls that runs once Flush or FlushWait
+//	          has reported a failure; in the tail only progress, generations and "one flush at a time" are judged
 //
 // Flush durations are scripted relative to the following operations: a flush either returns at once or is
 // held until a later "release" step of the program, or until the driver has to release it because the
@@ -33,6 +40,7 @@ import (
 	"errors"
 	"fmt"
 	"math/rand"
+	"runtime"
 	"sort"
 	"strings"
 	"sync"
@@ -67,6 +75,38 @@ type c16Program struct {
 	MinSize   int       `json:"min_flush_size"`
 	ForceSize int       `json:"force_flush_size"`
 	Steps     []c16Step `json:"steps"`
+	// Tail runs instead of the rest of Steps once Flush or FlushWait has reported an error
+	Tail []c16Step `json:"tail_after_reported_error,omitempty"`
+}
+
+// c16GenTail draws what the application does after it has been told that a flush failed: it waits (Rollback
+// calls FlushWait), flushes again, asks Len / Dirty, writes on.  Own random stream: the programs themselves
+// do not depend on it.
+func c16GenTail(rng *rand.Rand, id int) []c16Step {
+	var out []c16Step
+	n := 2 + rng.Intn(5)
+	for i := 0; i < n; i++ {
+		switch x := rng.Intn(100); {
+		case x < 30:
+			out = append(out, c16Step{Op: "flushwait"})
+		case x < 55:
+			out = append(out, c16Step{Op: "flush", Force: true, Hold: rng.Intn(3) == 0, Fail: rng.Intn(4) == 0})
+		case x < 65:
+			out = append(out, c16Step{Op: "flush", Hold: rng.Intn(3) == 0, Fail: rng.Intn(4) == 0})
+		case x < 73:
+			out = append(out, c16Step{Op: "len"})
+		case x < 81:
+			out = append(out, c16Step{Op: "dirty"})
+		case x < 93:
+			out = append(out, c16Step{Op: "set", Key: c16Keys[rng.Intn(len(c16Keys))], Val: fmt.Sprintf("t%d.%d", id, i)})
+		default:
+			out = append(out, c16Step{Op: "release"})
+		}
+	}
+	if rng.Intn(2) == 0 {
+		out = append(out, c16Step{Op: "flush", Force: true}, c16Step{Op: "flushwait"})
+	}
+	return out
 }
 
 func (s c16Step) String() string {
@@ -215,14 +255,36 @@ func c16Directed() []c16Program {
 		{st("set", "a", "d7.1"), fl(true, true), st("set", "b", "d7.2"), st("get", "a"), fl(false, false), st("flushwait")},
 		// 8: threshold-driven flush while the previous one is running and the buffer is over the force threshold
 		{st("set", "a", "d8.1"), fl(true, false), st("set", "b", "d8.2"), {Op: "flush"}, st("get", "a"), st("get", "b"), st("flushwait")},
+		// 9: background flush fails while it is held -> the next forced Flush reports it -> tail
+		{st("set", "a", "d9.1"), fl(true, true), st("set", "b", "d9.2"), fl(false, false)},
+		// 10: the same, picked up by a threshold-driven Flush (buffer over the force threshold)
+		{st("set", "a", "d10.1"), fl(true, true), st("set", "b", "d10.2"), {Op: "flush"}},
+		// 11: the flush has failed long before the next Flush asks
+		{st("set", "a", "d11.1"), fl(false, true), st("get", "a"), st("set", "b", "d11.2"), fl(false, false)},
+		// 12: reported by FlushWait (control), then the same tail
+		{st("set", "a", "d12.1"), fl(true, true), st("set", "b", "d12.2"), st("flushwait")},
+		// 13: a second generation fails; two successful ones before it
+		{st("set", "a", "d13.1"), fl(false, false), st("set", "b", "d13.2"), fl(true, true), st("set", "a", "d13.3"), fl(false, false)},
+	}
+	tails := [][]c16Step{
+		{st("flushwait"), st("len"), st("dirty"), fl(false, false), st("flushwait")},
+		{fl(false, false), st("flushwait"), st("len"), st("dirty")},
+		{st("len"), st("dirty"), st("flushwait"), st("flushwait"), fl(true, true), st("set", "c", "dt.1"), fl(false, false), st("flushwait")},
 	}
 	var out []c16Program
 	for i, steps := range progs {
-		p := c16Program{MinKeys: 1, MinSize: 0, ForceSize: 1 << 40, Steps: append(steps, closing...)}
-		if i == 7 {
+		p := c16Program{MinKeys: 1, MinSize: 0, ForceSize: 1 << 40, Steps: append(steps, closing...), Tail: tails[0]}
+		if i == 7 || i == 9 {
 			p.ForceSize = 1
 		}
 		out = append(out, p)
+		if i >= 8 {
+			for _, tl := range tails[1:] {
+				q := p
+				q.Tail = tl
+				out = append(out, q)
+			}
+		}
 	}
 	return out
 }
@@ -398,17 +460,48 @@ type c16Result struct {
 	shape                                                   []string
 	nontrivial                                              bool
 	gens                                                    []uint64
+
+	// after an error was reported
+	errBy             string // flush | flushwait: the call that reported the first failure ("" none)
+	tailSteps         int
+	tailBlockingCalls map[string]int
+	abandoned         bool // blocked in a state that has already been reported by an earlier program
 }
 
 type c16Viol struct {
 	sig, msg string
 	step     int
+	extra    map[string]any
 }
 
 const c16Grace = 400 * time.Microsecond
 
+// c16Watchdog bounds how long the driver looks at a call that does not return before it asks whether anything
+// is left that could make it return; the answer only counts after ten times that bound.
+const c16Watchdog = 2 * time.Second
+
+// c16BlockedReported: blocked states already reported by an earlier program of this run (by signature); later
+// programs that reach them are abandoned after the short bound instead of being judged again.
+var c16BlockedReported = map[string]bool{}
+
+// c16Goroutines returns the stacks of the goroutines that are inside the buffer.
+func c16Goroutines() []string {
+	buf := make([]byte, 1<<20)
+	buf = buf[:runtime.Stack(buf, true)]
+	var out []string
+	for _, g := range strings.Split(string(buf), "\n\n") {
+		if strings.Contains(g, "PipelinedMemDB") && len(out) < 8 {
+			if len(g) > 1500 {
+				g = g[:1500]
+			}
+			out = append(out, g)
+		}
+	}
+	return out
+}
+
 func c16Run(p c16Program) (res *c16Result) {
-	res = &c16Result{reads: map[string]int{}}
+	res = &c16Result{reads: map[string]int{}, tailBlockingCalls: map[string]int{}}
 	viol := func(step int, sig, format string, a ...any) {
 		res.violations = append(res.violations, c16Viol{sig: sig, msg: fmt.Sprintf("step %d: ", step) + fmt.Sprintf(format, a...), step: step})
 	}
@@ -479,9 +572,51 @@ func c16Run(p c16Program) (res *c16Result) {
 		cur = nil
 		_ = reported
 	}
+	stepName := func() string {
+		if stepNo < len(p.Steps) {
+			return p.Steps[stepNo].String()
+		}
+		if j := stepNo - len(p.Steps); j < len(p.Tail) {
+			return "tail:" + p.Tail[j].String()
+		}
+		return "?"
+	}
+	// inFlight: invocations of the flush function that have not returned (running or held).  The flush function
+	// is the harness's own, so this is exact.
+	inFlight := func() (n int, held int) {
+		env.mu.Lock()
+		defer env.mu.Unlock()
+		for _, f := range env.flushes {
+			select {
+			case <-f.exited:
+			default:
+				n++
+				if f.hold && !f.released {
+					held++
+				}
+			}
+		}
+		// an invocation that has been entered but is not in the list yet is counted by env.active
+		if a := int(env.active.Load()); a > n {
+			n = a
+		}
+		return n, held
+	}
+	releaseAllHeld := func() {
+		env.mu.Lock()
+		fl := append([]*c16Flush(nil), env.flushes...)
+		env.mu.Unlock()
+		for _, f := range fl {
+			release(f)
+		}
+	}
 	// blocking runs a call that may wait for the flush in flight; a held flush is released when the call
 	// does not return by itself.
-	blocking := func(call func()) bool {
+	//
+	// Bounded progress is decided on a logical condition: every invocation of the flush function has returned
+	// (none is running, none is held), so nothing is left that could wake the call up.  The watchdog only bounds
+	// how long we look; the state has to persist over a ten-fold bound before it counts.
+	blocking := func(name string, call func()) bool {
 		done := make(chan struct{})
 		var pv any
 		go func() {
@@ -489,36 +624,150 @@ func c16Run(p c16Program) (res *c16Result) {
 			defer func() { pv = recover() }()
 			call()
 		}()
+		ret := func() bool {
+			if pv != nil {
+				panic(pv)
+			}
+			return true
+		}
 		if cur != nil && cur.hold && !cur.released {
 			select {
 			case <-done:
+				return ret()
 			case <-time.After(c16Grace):
 				release(cur)
 				res.releasedByWait++
 			}
 		}
+		sig := "blocked:" + name + ":no-flush-in-flight"
+		first := c16Watchdog
+		if c16BlockedReported[sig] {
+			// this blocked state has been judged already: do not spend the bound on every program that reaches it
+			first = c16Watchdog / 50
+		}
 		select {
 		case <-done:
-		case <-time.After(3 * time.Second):
-			// Bounded progress, decided on a logical condition: every invocation of the flush function has
-			// returned (none is running, none is held), so nothing can wake the call up any more.  The
-			// watchdog only bounds how long we look; it is repeated with a ten-fold bound before it counts.
+			return ret()
+		case <-time.After(first):
+		}
+		if n, _ := inFlight(); n != 0 {
+			// an invocation is still running (held behind the driver's back, or slow): let everything go and look again
+			releaseAllHeld()
 			select {
 			case <-done:
-			case <-time.After(30 * time.Second):
-				if env.active.Load() == 0 {
-					res.hang = true
-					viol(stepNo, "hang:buffer-waits-for-a-flush-that-is-not-running", "%s has not returned after 33 s; no invocation of the flush function is running or held", p.Steps[stepNo].String())
-				} else {
-					res.inconc = "Flush/FlushWait did not return although the flush in flight was released (watchdog)"
-				}
+				return ret()
+			case <-time.After(10 * c16Watchdog):
+			}
+			if n, _ := inFlight(); n != 0 {
+				res.inconc = fmt.Sprintf("%s did not return and %d invocation(s) of the flush function did not return after release (watchdog)", name, n)
 				return false
 			}
 		}
-		if pv != nil {
-			panic(pv)
+		if c16BlockedReported[sig] {
+			res.abandoned = true
+			return false
 		}
-		return true
+		select {
+		case <-done:
+			return ret()
+		case <-time.After(10 * c16Watchdog):
+		}
+		if n, _ := inFlight(); n != 0 {
+			res.inconc = name + " did not return; the flush function is running again (watchdog)"
+			return false
+		}
+		env.mu.Lock()
+		nInv := len(env.flushes)
+		env.mu.Unlock()
+		res.hang = true
+		c16BlockedReported[sig] = true
+		res.violations = append(res.violations, c16Viol{sig: sig, step: stepNo,
+			msg: fmt.Sprintf("step %d: %s (%s) has not returned after %v although no flush is in flight: all %d invocations of the flush function have returned, none is held; first failure reported by %q", stepNo, name, stepName(), 11*c16Watchdog, nInv, res.errBy),
+			extra: map[string]any{"goroutines_inside_the_buffer": c16Goroutines(), "flush_function_invocations": nInv, "flush_function_running": 0}})
+		return false
+	}
+
+	// tail: what the application does after it has been told that a flush failed.  Reads and hand-off contents
+	// are not judged any more (the transaction has failed); progress, generations and "one at a time" are.
+	runTail := func() {
+		for j, st := range p.Tail {
+			stepNo = len(p.Steps) + j
+			res.tailSteps++
+			switch st.Op {
+			case "set":
+				_ = db.Set([]byte(st.Key), []byte(st.Val))
+			case "len":
+				res.tailBlockingCalls["len"]++
+				if !blocking("len", func() { _ = db.Len() }) {
+					return
+				}
+			case "dirty":
+				res.tailBlockingCalls["dirty"]++
+				if !blocking("dirty", func() { _ = db.Dirty() }) {
+					return
+				}
+			case "release":
+				if cur != nil && cur.hold && !cur.released {
+					release(cur)
+					if !finished(cur) {
+						return
+					}
+				}
+			case "flushwait":
+				prev := cur
+				res.tailBlockingCalls["flushwait"]++
+				if !blocking("flushwait", func() { _ = db.FlushWait() }) {
+					return
+				}
+				if prev != nil && prev.released && !finished(prev) {
+					return
+				}
+				cur = nil
+			case "flush":
+				env.mu.Lock()
+				env.next = st
+				env.mu.Unlock()
+				prev := cur
+				var trig bool
+				var err error
+				res.tailBlockingCalls["flush"]++
+				if !blocking("flush", func() { trig, err = db.Flush(st.Force) }) {
+					return
+				}
+				if err != nil {
+					cur = nil // the result of the flush in flight has been consumed
+					continue
+				}
+				if !trig {
+					continue
+				}
+				var f *c16Flush
+				select {
+				case f = <-env.entered:
+				case <-time.After(30 * time.Second):
+					viol(stepNo, "handoff:flush-func-never-called", "Flush(force=%v) returned triggered=true but the flush function was not invoked within 30 s", st.Force)
+					return
+				}
+				res.flushes++
+				if f.overlapped {
+					viol(stepNo, "inflight:two-flushes", "the flush function was entered for generation %d while the previous invocation (generation %v) was still running", f.gen, c16PrevGen(env, f))
+				}
+				if prev != nil {
+					release(prev)
+					if !finished(prev) {
+						return
+					}
+				}
+				if n := len(res.gens); n > 0 && f.gen <= res.gens[n-1] {
+					viol(stepNo, "gen:not-increasing", "flush generation %d follows generation %d", f.gen, res.gens[n-1])
+				}
+				res.gens = append(res.gens, f.gen)
+				cur = f
+				if !f.hold && !finished(f) {
+					return
+				}
+			}
+		}
 	}
 
 	for i, st := range p.Steps {
@@ -645,7 +894,7 @@ func c16Run(p c16Program) (res *c16Result) {
 			prev := cur
 			var trig bool
 			var err error
-			if !blocking(func() { trig, err = db.Flush(st.Force) }) {
+			if !blocking("flush", func() { trig, err = db.Flush(st.Force) }) {
 				return
 			}
 			for k := range cachedSince {
@@ -671,7 +920,12 @@ func c16Run(p c16Program) (res *c16Result) {
 				}
 				pendingFail = false
 				c16NoSpuriousFlush(env, nBefore, i, viol)
-				return // the transaction has been told to fail: end of program
+				// the transaction has been told to fail: the result of the flush in flight has been consumed; the
+				// program ends and its tail runs
+				consume(err)
+				res.errBy = "flush"
+				runTail()
+				return
 			}
 			if !trig {
 				res.shape = append(res.shape, "flush:no")
@@ -745,7 +999,7 @@ func c16Run(p c16Program) (res *c16Result) {
 		case "flushwait":
 			prev := cur
 			var err error
-			if !blocking(func() { err = db.FlushWait() }) {
+			if !blocking("flushwait", func() { err = db.FlushWait() }) {
 				return
 			}
 			if prev != nil {
@@ -763,6 +1017,9 @@ func c16Run(p c16Program) (res *c16Result) {
 					viol(i, "error:spurious", "FlushWait returned %v although no flush had failed", err)
 				}
 				pendingFail = false
+				consume(err)
+				res.errBy = "flushwait"
+				runTail()
 				return
 			}
 			res.shape = append(res.shape, "flushwait")
@@ -932,36 +1189,49 @@ func c16Fmt(m map[string]c16Val) string {
 // ---------------------------------------------------------------- test
 
 func TestVerifC16PipelinedMemDB(t *testing.T) {
-	r := vrep.New("C16", "c16-pipelined-memdb", "generated programs (set/delete/get/batch-get/flush force|threshold/flush-wait/staging open-release-cleanup/flag updates over 2-6 keys incl. prefixes of each other, flush thresholds lowered through the pipelinedMemDB* failpoints) on the real PipelinedMemDB with a scripted flush function (returns at once | held until a later step or until the buffer waits for it; succeeds | fails; the store already shows a part of a running flush) and a scripted batch getter; monitor = three-tier model (mutable with staging layers, flushing, store): every Get/BatchGet vs latest write incl. deletions and the batch-get cache, content of every hand-off vs the mutable tier, buffer unchanged while flushing, generations increase, flush function never entered twice at once, every flush failure reported by a later Flush/FlushWait; distinct = distinct operation/tier shapes of programs that flushed and read from the flushing or flushed tier")
+	r := vrep.New("C16", "c16-pipelined-memdb", "generated programs (set/delete/get/batch-get/flush force|threshold/flush-wait/staging open-release-cleanup/flag updates over 2-6 keys incl. prefixes of each other, flush thresholds lowered through the pipelinedMemDB* failpoints) on the real PipelinedMemDB with a scripted flush function (returns at once | held until a later step or until the buffer waits for it; succeeds | fails; the store already shows a part of a running flush) and a scripted batch getter; monitor = three-tier model (mutable with staging layers, flushing, store): every Get/BatchGet vs latest write incl. deletions and the batch-get cache, content of every hand-off vs the mutable tier, buffer unchanged while flushing, generations increase, flush function never entered twice at once, every flush failure reported by a later Flush/FlushWait; once a failure has been reported the program's tail runs (FlushWait - what Rollback does -, Flush forced or not with scripted hold/failure, Len, Dirty, writes, release): no call stays blocked while no invocation of the flush function is running or held (exact: the flush function is the harness's; judged after a ten-fold bound), generations still increase, still one flush at a time; distinct = distinct operation/tier shapes of programs that flushed and read from the flushing or flushed tier")
 	defer r.Finish(t)
 	util.EnableFailpoints()
 	defer failpoint.Disable("tikvclient/pipelinedMemDBMinFlushKeys")
 	defer failpoint.Disable("tikvclient/pipelinedMemDBMinFlushSize")
 	defer failpoint.Disable("tikvclient/pipelinedMemDBForceFlushSizeThreshold")
 	rng := vrep.Rand("c16-memdb")
+	tailRng := vrep.Rand("c16-memdb-tail")
 	n := vrep.Pick(4000, 60000)
 	hangs := 0
 	directed := c16Directed()
-	for id := -len(directed); id < n && hangs < 2; id++ {
+	for id := -len(directed); id < n && hangs < 4; id++ {
 		var p c16Program
 		if id < 0 {
 			p = directed[-id-1]
 			r.Count("directed_programs", 1)
 		} else {
 			p = c16Gen(rng, id)
+			p.Tail = c16GenTail(tailRng, id)
 		}
 		res := c16Run(p)
 		r.Eval(1)
 		r.Count("programs", 1)
 		if res.inconc != "" {
 			r.Inconc("program %d: %s", id, res.inconc)
-			if hangs++; hangs >= 2 {
+			if hangs++; hangs >= 4 {
 				break
 			}
 			continue
 		}
 		if res.hang {
 			hangs++
+		}
+		if res.abandoned {
+			r.Count("programs_abandoned_in_a_blocked_state_already_reported", 1)
+		}
+		if res.errBy != "" {
+			r.Count("tail_after_error_reported_by:"+res.errBy, 1)
+			r.Count("tail_steps", res.tailSteps)
+			for k, v := range res.tailBlockingCalls {
+				r.Count("tail_call:"+k+":after_error_reported_by:"+res.errBy, v)
+				r.Eval(v)
+			}
 		}
 		r.Count("flushes", res.flushes)
 		r.Count("flushes_forced", res.forced)
@@ -996,13 +1266,29 @@ func TestVerifC16PipelinedMemDB(t *testing.T) {
 				}
 				steps = append(steps, s.String())
 			}
-			r.Violate("memdb:"+v.sig, fmt.Sprintf("program %d: %s", id, v.msg), map[string]any{"program_id": id, "program": p, "steps_until_failure": steps})
+			for j, s := range p.Tail {
+				if len(p.Steps)+j <= v.step {
+					steps = append(steps, "tail:"+s.String())
+				}
+			}
+			detail := map[string]any{"program_id": id, "program": p, "steps_until_failure": steps}
+			for k, x := range v.extra {
+				detail[k] = x
+			}
+			r.Violate("memdb:"+v.sig, fmt.Sprintf("program %d: %s", id, v.msg), detail)
 		}
 	}
 	r.Floor("flushes", 1000)
 	r.Floor("flushes_threshold_driven", 50)
 	r.Floor("flushes_held", 200)
 	r.Floor("flush_errors_reported", 20)
+	// the family "the application goes on after it was told that a flush failed"
+	r.Floor("tail_after_error_reported_by:flush", 100)
+	r.Floor("tail_after_error_reported_by:flushwait", 50)
+	r.Floor("tail_call:flushwait:after_error_reported_by:flush", 100)
+	r.Floor("tail_call:flush:after_error_reported_by:flush", 100)
+	r.Floor("tail_call:len:after_error_reported_by:flush", 20)
+	r.Floor("tail_call:dirty:after_error_reported_by:flush", 20)
 	r.Floor("read:get:flushing", 100)
 	r.Floor("read:get:flushed", 100)
 	r.Floor("read:get:flushed-del", 20)
